@@ -55,6 +55,8 @@ struct H {
 	irrevocable_by: Option<[u8; 32]>,
 	f5_done: bool,
 	forwarded_event: bool,
+	/// chain height when the update_add_htlc was emitted
+	height_added: u32,
 }
 
 #[derive(Default, Clone, Debug)]
@@ -343,7 +345,7 @@ impl Monitor for PayMonitor {
 				match &e.wire {
 					Wire::Add(m) => {
 						let hash = m.payment_hash.0;
-						let mut h = H { chan: ci, owner: party, id: m.htlc_id, hash, amt: m.amount_msat, cltv: m.cltv_expiry, from: e.from, to: e.to, pay: None, up: None, down: None, fulfil_emitted: false, fulfil_delivered: false, fail_emitted: false, irrevocable_by: None, f5_done: false, forwarded_event: false };
+						let mut h = H { chan: ci, owner: party, id: m.htlc_id, hash, amt: m.amount_msat, cltv: m.cltv_expiry, from: e.from, to: e.to, pay: None, up: None, down: None, fulfil_emitted: false, fulfil_delivered: false, fail_emitted: false, irrevocable_by: None, f5_done: false, forwarded_event: false, height_added: w.chain.height() };
 						let idx = self.hs.len();
 						// origin?
 						let mut origin = None;
@@ -603,7 +605,7 @@ impl Monitor for PayMonitor {
 		if self.final_settle {
 			for (pi, p) in self.ps.iter() {
 				let rec = &w.payments[*pi];
-				if self.pay_tainted(w, *pi) || !matches!(rec.class, "wrong-secret" | "foreign-secret" | "underpaid" | "incomplete-mpp" | "disagreeing-parts" | "expired-secret") {
+				if self.pay_tainted(w, *pi) || !matches!(rec.class, "wrong-secret" | "foreign-secret" | "underpaid" | "incomplete-mpp" | "disagreeing-parts" | "expired-secret" | "short-final-cltv") {
 					continue;
 				}
 				for i in p.htlcs.iter().flatten() {
@@ -804,6 +806,17 @@ impl PayMonitor {
 						});
 						if !ok_group {
 							v.violation("C04", "I1-complete", "PaymentClaimable although no set of arrived parts agreeing on the declared total reaches that total", format!("node{} reg {}: reported {}, declared totals {:?}, arrived {}", node, ri, amount_msat, totals, sum_valid));
+						}
+						if let Some(d) = reg.custom_final {
+							// the recipient asked for at least d blocks: an HTLC that had fewer left when it was added
+							// (the library checks this later still, when it processes the HTLC) must not be shown
+							v.rep.count("c04_i1_custom_final_cltv_claimables_checked");
+							for i in valid.iter() {
+								let h = &self.hs[*i];
+								if h.cltv < h.height_added + d as u32 {
+									v.violation("C04", "I1-claim-window", "PaymentClaimable for an HTLC that expires sooner than the minimum final CLTV delta the payment was registered with", format!("node{} reg {}: expiry {}, added at height {}, registered delta {}", node, ri, h.cltv, h.height_added, d));
+								}
+							}
 						}
 						match claim_deadline {
 							Some(d) => {
